@@ -39,7 +39,8 @@ ASSUMPTIONS = [
 REQUIRED_LABELS = {t: ["iteration:valid", "iteration:invalid", "hash:invalid", "sig:malformed",
                        "authorized", "never-authorized", "device-error", "sigs>=2",
                        "signapp:key", "signapp:manual", "signapp:eth", "iter:65535", "iter:0",
-                       "duplicate-signature", "malformed-file"]
+                       "duplicate-signature", "malformed-file",
+                       "signapp:other-iteration-on-existing-file|signapp:other-iteration-refused"]
                    for t in ("quick", "thorough")}
 h32 = st.binary(min_size=32, max_size=32)
 BAD_SIGS = ["", "zz", "30", "3006020101", "3006020101020101ff", "3106020101020101",
@@ -193,6 +194,20 @@ def run_case(c):
         sg = sk.sign_digest(digest, sigencode=ecdsa.util.sigencode_der)
         good.append(sg.hex())
     auth = SignerAuthorization(sv, good)
+    # a signature refused by add_signature leaves the authorization as it was
+    for s_ in c["sigs"]:
+        if "bad" in s_:
+            try:
+                auth.add_signature(s_["bad"])
+            except Exception:      # noqa - refused
+                pass
+            else:
+                raise Violation("malformed-signature-accepted", "add_signature(%r)" % (
+                    s_["bad"],))
+            if auth.signatures != good:
+                raise Violation("refused-signature-retained", "after add_signature(%r) was "
+                                "refused the authorization lists %r" % (s_["bad"],
+                                                                        auth.signatures[-2:]))
     p1 = os.path.join(d, "auth.json")
     auth.save_to_jsonfile(p1)
     again = SignerAuthorization.from_jsonfile(p1)
@@ -228,6 +243,34 @@ def run_case(c):
             raise Violation("signapp-signature-does-not-verify", "signature %s under key %d" % (
                 last.hex(), j))
         labels.append("signapp:key")
+    # one more signature added to the EXISTING file, the operator passing another iteration on
+    # the command line: whatever the tool makes of that, every signature kept in the file
+    # verifies for the signer version the file states
+    sk3 = certs.sk_from_int(c["signapp_keys"][0] + 3)
+    other_i = (n + 1) % 65536
+    code, out = run_main(signapp, ["signapp.py", "key", "-a", app_path, "-i",
+                                   [str(other_i), hex(other_i)][n % 2], "-o", out_path, "-k",
+                                   sk3.to_string().hex()])
+    doc = json.load(open(out_path))
+    if code == 0:
+        fhash, fit = doc["signer"]["hash"], doc["signer"]["iteration"]
+        if fhash != app_hash:
+            raise Violation("signapp-file-content", json.dumps(doc)[:300])
+        _, _, fdigest = expected_text(fhash, fit)
+        pubs_ = [certs.pub_uncompressed(certs.sk_from_int(k)) for k in c["signapp_keys"]] + \
+            [certs.pub_uncompressed(sk3)]
+        for sg_ in doc["signatures"]:
+            if not any(verify_libsecp(pb, fdigest, bytes.fromhex(sg_)) for pb in pubs_):
+                raise Violation("signapp-signature-does-not-verify", "after a run with -i %d on "
+                                "a file for iteration %d: signature %s verifies under none of "
+                                "the signing keys for the file's signer version" % (
+                                    other_i, fit, sg_[:24]))
+        want_sigs = len(doc["signatures"])
+        labels.append("signapp:other-iteration-on-existing-file")
+    else:
+        if len(doc.get("signatures", [])) != want_sigs:
+            raise Violation("signapp-file-content", "a refused run changed the file")
+        labels.append("signapp:other-iteration-refused")
     # signapp eth: the signature comes from a (simulated) Ledger Ethereum app, which signs the
     # personal-message digest of the text it is sent with the key of the path it is sent
     import admin.dongle_eth as deth
